@@ -9,7 +9,7 @@ from multiprocessing import Pool
 from harness import core, gen
 from harness.drivers.c08 import tours_from_edges
 from harness.drivers.c17 import FakeTransport
-from harness.drivers.c20 import enc
+from harness.drivers.c20 import enc, builtin_of
 
 PING = bytes([0x0A, 0x00, 0x00, 0x00, 0x14])
 ACK = bytes([0x0C, 0x00, 0x00, 0x00, 0x14])
@@ -92,7 +92,7 @@ class P2PSut:
         out = []
         for n, r in enumerate(self.st.all()):
             out.append({"id": n + 1,
-                        "f": {"address_in": enc(r.address_in), "address_out": enc(r.address_out), "callsign": enc(r.callsign)},
+                        "f": builtin_of(r),
                         "attrs": {"p2p_is_registered": enc("True" if r.attr("p2p_is_registered") else None)}})
         return out
 
